@@ -19,6 +19,7 @@ CONSTANTS MaxNodes = {maxn}
           Canon = {canon}
           Hist = {hist}
           MaxHist = {maxh}
+          AskAt = {askat}
           Dev = {dev}
 {view}
 CONSTRAINT Bound
@@ -36,9 +37,9 @@ CHECK_DEADLOCK FALSE
 """
 
 
-def gen_cfg(fam, maxn=2, maxr=0, labels=L_A, p="one", q="none", r="none", types=T1, canon=True, hist=False, maxh=8,
+def gen_cfg(fam, maxn=2, maxr=0, labels=L_A, p="one", q="none", r="none", types=T1, canon=True, hist=False, maxh=8, askat=1,
             dev="{}", view="VIEW View", emit="ACTION_CONSTRAINT EmitAsk", inv=LAWS):
-    return GEN.format(fam=fam, maxn=maxn, maxr=maxr, labels=labels, p=p, q=q, r=r, types=types, canon="TRUE" if canon else "FALSE",
+    return GEN.format(askat=askat, fam=fam, maxn=maxn, maxr=maxr, labels=labels, p=p, q=q, r=r, types=types, canon="TRUE" if canon else "FALSE",
                       hist="TRUE" if hist else "FALSE", maxh=maxh, dev=dev, view=view, emit=emit, inv=inv)
 
 
